@@ -22,7 +22,7 @@ META = {
             'Assumed: the itertools `chunks` contract (consecutive groups of block_size, last one shorter) behind get_rtreeindex; with it, covering spans and well-formedness of the built tree are proved for every section count (rt_tree, rt_spans).'),
     'C05': ('R-tree: `compare_position`/`overlaps` against the lexicographic spec (rt_nodes; cmp_k by Kani contract over full-width inputs), `nodes_overlapping` == order-preserving filter; work-list search == pre-order DFS of the pointer graph == linear scan given covering spans, with error propagation and termination (rt_search); node decoding, 24/32-byte items (rt_readnode; rt_items by Kani, complete); on-disk layout: child pointers == real positions for every well-formed tree (rt_layout); caching reader returns the same nodes (cache); construction of the tree: well-formed for the layout writer, covering spans on every level, every section once in order, termination for block_size >= 2 (rt_tree, rt_spans).',
             'The chain is closed for every tree size: get_rtreeindex builds a well-formed covering tree (rt_tree, rt_spans; itertools `chunks` contract assumed), the layout writer stores it with correct child pointers (rt_layout), the search over covering spans equals the linear scan (rt_search). What connects the in-memory tree to the bytes the reader parses is rt_layout\'s decode statement; zlib is assumed.'),
-    'C06': ('whole-file summary: per-value update exact on integers (items, bases) and shape-pinned on floats (bw_batch); bigBed sweep accounting with exact depth segments (bb_sweep); cross-chromosome fold incl. "a chromosome without covered bases contributes no min/max" (sum_acc); initial processor state (create); the summary and count are stored at the offsets the header names (hdr, zoom_levels); life-cycle (procs).',
+    'C06': ('whole-file summary: per-value update exact on integers (items, bases) and shape-pinned on floats (bw_batch); bigBed sweep accounting with exact depth segments (bb_sweep); cross-chromosome fold incl. "a chromosome without covered bases contributes no min/max" (sum_acc); initial processor state (create); the summary and count are stored at the offsets the header names (hdr, zoom_levels); life-cycle (procs). Read side: header offsets (info), summary and count decoded from those offsets (summary_io), reader plumbing (rd_plumb); the info tools print exactly those values, line by line, with `num_with_commas` proved equal to the grouped decimal digits for all u64 (info_tools).',
             'NOT decided: float rounding (floats are uninterpreted with totality/determinism axioms: shape only), IndexList behaves as a sequence (assumed shim contract).'),
     'C07': ('bigWig zoom: per-level tiling invariant with exact bases_covered == data bases in the record span, disjoint ordered records of length <= resolution, every data base in exactly one record, batches 1..=items_per_slot, nothing pending at chromosome end, termination (bw_zoom); zoom sizes positive, sorted, deduplicated, <= 10 levels (zoom_sizes, zoom_levels); zoom block bytes == published 32-byte layout, span covers records (zoom_enc), decoder and iterator (zoom_dec, iters, query_glue); offsets (sec_offsets); initial state (create); every level is stepped exactly once per value with the real look-ahead, nothing before or after the level loop skips it (zoom_outer); the two-pass zoom writer whole (zoom_vals_whole, zoom_tail); header room (write_pre).',
             'NOT decided: f64->f32 narrowing error, value.end + size <= u32::MAX is an unchecked precondition, task pipeline.'),
@@ -36,10 +36,10 @@ META = {
             'ASSUMED, not proved: each method touches shared state through single linearizable swaps, so every interleaving is equivalent to an order of whole operations; that a wait returns at all (wake-ups, deadlock freedom) is not modelled: `wait_closed` returns the value the cell holds once the producer has published.'),
     'C13': ('refusal as an IFF with no state change on Err for bigWig and bigBed process_val (bw_batch, bb_batch, procs); source-side order/refusal propagation (feed); every loop in every unit has a proved termination measure (zoom tiling, zoom-count loops, sweep, zoom_sizes: no zero resolution reaches the tiling loop; get_rtreeindex level loop incl. empty input: rt_tree); malformed lines refused on the serial and the parallel path, a chromosome that starts a second run refused (bedparse, feed, feed_par, chrom_ids); no overflow panics in the zoom level choice; hand-off channels sized for one message per chromosome (zoom_tail); absence of panics = overflow/index/assert obligations under stated preconditions.',
             'NOT decided: "never hangs" for the concurrent task pipeline (schedules; the pipeline code is verified sequentialised, R1/R2).'),
-    'C15': ('gap filling: FillValues::next enumerates exactly the specified gapless tiling (fill); merge_into pairwise split/sum (Kani complete, merge_into); the k-way merge through the 50 000-base window for all u32 coordinates (value_iter); merge tool: clip/adjust/threshold closures and their order (mv_adjust, merge_wiring), output names, queries from base 0, feeding protocol, bedGraph/bigWig agreement, grouped merges are plain sums (merge_tool).',
-            'NOT decided: float rounding (uninterpreted floats: shape only); the fold over the sections inside one window is an assumed R9 fold of the proved per-section contract; thread schedules of the bigWig output.'),
-    'C16': ('command-line converters, the sequential core: bigwigtobedgraph / bigbedtobed write one line per record of ONE range query per wanted chromosome, in file order, with start/end honoured only together with a chromosome (so a restricted output is exactly the range-query result), rest columns verbatim; the multi-threaded writers hand the per-chromosome texts over in chromosome order, which equals the single-threaded text given the same per-chromosome lines (conv_out); bedgraphtobigwig / bedtobigbed hand every option to its writer slot and end in exactly one write call on the given input for every (threads, parallel, single-pass, stdin) combination (conv_opts); every input line becomes one record with the fields of that line or a refusal (bedparse). Relative to the C01/C02/C03/C04 contracts of the library.',
-            'NOT decided: thread schedules and blocking (R1 sequentialisation; C11 is not claimed); `compat_args` / clap: the UCSC flag spellings are macro-generated string matching outside both verifiers; number formatting and parsing (ryu, `{}`, parse::<f32>) are uninterpreted; the chrom.sizes parser; `--zoom` mode. Observations recorded in DESIGN 11.3 (dropped producer JoinHandle: a failing reopen truncates the multi-threaded output silently; options accepted but never plumbed).'),
+    'C15': ('gap filling: FillValues::next enumerates exactly the specified gapless tiling (fill); merge_into pairwise split/sum (Kani complete, merge_into); the k-way merge through the 50 000-base window for all u32 coordinates, including the fold of the per-section accumulation over all sections in order, proved by a loop invariant over the real loop header (value_iter); merge tool: clip/adjust/threshold closures and their order (mv_adjust, merge_wiring), output names, queries from base 0, feeding protocol, bedGraph/bigWig agreement, grouped merges are plain sums (merge_tool).',
+            'NOT decided: float rounding (uninterpreted floats: shape only); thread schedules of the bigWig output.'),
+    'C16': ('command-line converters, the sequential core: bigwigtobedgraph / bigbedtobed write one line per record of ONE range query per wanted chromosome, in file order, with start/end honoured only together with a chromosome (so a restricted output is exactly the range-query result), rest columns verbatim; the multi-threaded writers hand the per-chromosome texts over in chromosome order, which equals the single-threaded text given the same per-chromosome lines (conv_out); bedgraphtobigwig / bedtobigbed hand every option to its writer slot and end in exactly one write call on the given input for every (threads, parallel, single-pass, stdin) combination (conv_opts); every input line becomes one record with the fields of that line or a refusal (bedparse). The heads of the reading tools: restrictions always reach the single-threaded writer that honours them, refusals call no writer, name-column decoding (cli_dispatch). UCSC flag spellings: the tables of `compat_replace_mut!` cut from /repo and expanded mechanically against the pinned macro body - every listed UCSC flag becomes its native spelling with the value unchanged for EVERY value, native/short/plain arguments unchanged; `compat_args` whole: arguments kept in order, multicall, Kent-style bigWigMerge call (compat). `bigtools intersect`/`chromintersect` (intersect). Relative to the C01/C02/C03/C04 contracts of the library.',
+            'NOT decided: thread schedules and blocking (R1 sequentialisation; C11 is not claimed); clap argument parsing itself (derive macros); three UCSC spellings reach clap in a form no tool declares (`-tab`/`-inList` become an empty positional, `-bed=` becomes the undeclared `--overlap-bed`, `-minMax` becomes `--minmax` where bigwigaverageoverbed declares `--min-max`: observations in contracts/compat/NOTES.md); number formatting and parsing (ryu, `{}`, parse::<f32>) are uninterpreted; the chrom.sizes parser; `--zoom` mode. Observations recorded in DESIGN 11.3 (dropped producer JoinHandle: a failing reopen truncates the multi-threaded output silently; options accepted but never plumbed).'),
     'C17': ('per-region statistics: size, bases, weighted sum fold, min/max folds, mean0, mean, NaN when uncovered - exact on integers, shape-pinned on floats (stats), relative to the C03 query contract (bw_dec); row text in both the threaded and the single-threaded copy (avg_rows); values-over-bed per-base fill (vob); the tools\' loops whole: one query / one statistics call per input line with that line\'s own fields, one row per line in input order, errors returned, threaded reassembly in chunk order (cli_loops); the name column (avg_names); line parsing (bedparse).',
             'NOT decided: thread-count independence (schedules); precondition start <= end of the region is not established by parse_bed (recorded in NOTES).'),
     'C18': ('FileView window invariant and seek/read semantics == isolated range for all offsets (fview); chunking cuts only at line starts, covers the file once, terminates (chunks); indexer: every run start in a probed interval is recorded, sorted by position, repeated chromosome reported as not grouped (index).',
